@@ -10,6 +10,8 @@ import SkNet.Lemmas.TerminateLouvain
 import SkNet.Lemmas.ModularityFit
 import SkNet.Lemmas.KernelsHeap
 import SkNet.Lemmas.KernelsWL
+import SkNet.Lemmas.TerminateLouvainOuter
+import SkNet.Lemmas.TerminatePush
 
 namespace SkNet.C17
 open SkNet SkNet.IR
@@ -224,5 +226,68 @@ theorem wl_entry_colours_in_range (ops : WL.HashOps H) (adj : List (List Nat)) (
 
 /-- non-vacuity: the path 0–1–2 gets the colours `[0, 1, 0]`, all `< 3` -/
 example : WL.colorWL WL.exactOps [[1], [0, 2], [1]] none = [0, 1, 0] := by decide +kernel
+
+/-! ## 5. More loops: the outer loop of Louvain, the work-list of push -/
+
+/-- **louvain_outer_terminates.**  The `while not stop` loop of `Louvain.fit` (optimise, aggregate, repeat; model
+    `SkNet.Modularity.louvainLoop`, exact arithmetic) terminates for tolerances `tol_optimization ≥ 0`,
+    `tol_aggregation ≥ 0` and any `n_aggregations` (the default `-1` = unbounded included): a round that does not
+    stop has `increase > tol_aggregation ≥ 0`, so some node left its singleton, its label is carried by no node any
+    more (labels are only copied from neighbours) and the aggregated graph has strictly fewer nodes — the `n + 1`
+    rounds of fuel of the model are never exhausted. -/
+theorem louvain_outer_terminates (res tolOpt tolAgg : Rat) (htolOpt : 0 ≤ tolOpt) (htolAgg : 0 ≤ tolAgg) (nAgg : Int)
+    (coreFuel fuel count : Nat) (lv : Modularity.Level) (memb : List Nat) (incs : List Rat)
+    (hlv : Modularity.LevelOK lv) (hcf : lv.n ^ lv.n + 1 ≤ coreFuel) (hf : lv.n + 1 ≤ fuel) :
+    Modularity.louvainLoop res tolOpt tolAgg nAgg coreFuel fuel count lv memb incs ≠ none :=
+  Terminate.louvainLoop_terminates res tolOpt tolAgg htolOpt htolAgg nAgg coreFuel fuel count lv memb incs hlv hcf hf
+
+/-- **louvain_fit_terminates.**  `Louvain.fit` (model `louvainFit`: pre-processing, then the loop above) never runs
+    out of fuel once the input is accepted. -/
+theorem louvain_fit_terminates (kind : Modularity.Kind) (res tolOpt tolAgg : Rat) (htolOpt : 0 ≤ tolOpt)
+    (htolAgg : 0 ≤ tolAgg) (nAgg : Int) (nRow nCol nnz : Nat) (B : Nat → Nat → Rat) (fb : Bool) (coreFuel : Nat)
+    (lv : Modularity.Level) (hpre : Modularity.preProcess kind nRow nCol nnz B fb = .ok lv)
+    (hcf : lv.n ^ lv.n + 1 ≤ coreFuel) :
+    Modularity.louvainFit kind res tolOpt tolAgg nAgg nRow nCol nnz B fb coreFuel ≠ .ok none :=
+  Terminate.louvainFit_terminates kind res tolOpt tolAgg htolOpt htolAgg nAgg nRow nCol nnz B fb coreFuel lv hpre hcf
+
+/-- non-vacuity: the pair level satisfies the hypotheses with both tolerances 0 and unbounded `n_aggregations`;
+    the loop stops in its first round (one cluster is left) -/
+example : (Modularity.louvainLoop 1 0 0 (-1) 5 3 0 pairLevel (Modularity.arange 2) []).map (·.labels) = some [0, 0] := by
+  decide +kernel
+
+/-- **push_worklist_terminates.**  The `while not worklist.empty()` loop of `push_pagerank` (model
+    `SkNet.Rank.pushLoop`, exact arithmetic) terminates: a vertex re-enters the work-list only when its residual
+    crosses the tolerance from below, residuals never decrease, so `|work-list| + n` rounds suffice
+    (`2n` from the initial list of all vertices). -/
+theorem push_worklist_terminates (g : Rank.Graph ℚ) (deg : List ℚ) (a tol : ℚ) (ha : a ≤ 1)
+    (hdeg : ∀ v, 0 ≤ deg.getD v 0) (st : Rank.PState ℚ) (hg : ∀ v, ∀ p ∈ g.row v, p.1 < st.resid.length)
+    (hnn : ∀ v, 0 ≤ st.resid.getD v 0) (fuel : Nat) (hf : st.work.length + st.resid.length ≤ fuel) :
+    Rank.pushLoop g deg a tol fuel st ≠ none := by
+  apply Terminate.pushLoop_terminates g deg a tol ha hdeg st.resid.length hg fuel st hnn rfl
+  have : (Terminate.belowTol st.resid tol).card ≤ st.resid.length := by
+    unfold Terminate.belowTol
+    exact le_trans (Finset.card_filter_le _ _) (by simp)
+  simp only [Terminate.pushMeasure]
+  omega
+
+/-- non-vacuity: two vertices joined by one edge, residuals `[1/4, 1/4]`, tolerance `1/3`, damping `1/2` -/
+example : Rank.pushLoop (α := ℚ) ⟨2, fun i => if i = 0 then [(1, 1)] else if i = 1 then [(0, 1)] else []⟩ [1, 1]
+    (1/2) (1/3) 4 ⟨[1/2, 1/2], [1/4, 1/4], [0, 1]⟩ ≠ none := by
+  apply push_worklist_terminates
+  · norm_num
+  · intro v
+    rw [List.getD_eq_getElem?_getD]
+    rcases v with _ | _ | v <;> simp
+  · intro v p hp
+    simp only at hp
+    split at hp
+    · simp only [List.mem_singleton] at hp; subst hp; decide
+    · split at hp
+      · simp only [List.mem_singleton] at hp; subst hp; decide
+      · simp at hp
+  · intro v
+    rw [List.getD_eq_getElem?_getD]
+    rcases v with _ | _ | v <;> simp
+  · decide
 
 end SkNet.C17
